@@ -31,7 +31,10 @@ def write(design, r, style=True):
 
     def comment():
         if style and r.random() < 0.25:
-            return "(%s \"%s\")%s" % (kw("comment"), r.choice(["note", "a (b) c", "", "x ; y"]), sp())
+            c = r.choice(["note", "a (b) c", "", "x ; y", None, None])
+            if c is None:
+                return "(%s)%s" % (kw("comment"), sp())        # a comment may hold zero strings
+            return "(%s \"%s\")%s" % (kw("comment"), c, sp())
         return ""
     w = out.append
     w("(%s %s%s(%s 2 0 0)%s(%s 0)%s(%s (%s 0)%s)%s" % (kw("edif"), nd(design["name"]), sp(), kw("edifVersion"), sp(), kw("edifLevel"), sp(),
@@ -64,6 +67,7 @@ def write(design, r, style=True):
                         kw("instance"), nd(i["name"]), sp(), kw("viewRef"), ref("netlist"), kw("cellRef"), ref(i["cell"]),
                         (" (%s %s)" % (kw("libraryRef"), ref(i["lib"]))) if (i["lib"] != L["name"][0] or r.random() < 0.6 or not style) else "", sp()))
                     for pn, t, v in i["props"]:
+                        w(comment())            # comments may stand between the attributes of an instance
                         if t == "string":
                             tv = "(%s \"%s\")" % (kw("string"), v)
                         elif t == "integer":
